@@ -199,6 +199,11 @@ def column_table(ck, w, r, rule):
             ck.ok(rule, construct, where_frame, f"writer reads row.{wa[0]}, reader stores .{ra}")
         elif col == "Orientation" or wa[0] == "orientation":
             _orientation(ck, rule, w, r, col, where_frame)
+        elif rule.startswith("C02") and R.conflict(R.tokens(wa[0]), R.tokens(col)) is None and \
+                R.conflict(R.tokens(ra), R.tokens(col)) is not None:
+            # the side that deviates is the reader (its attribute contradicts the column's name, the writer's does not): what is
+            # written is right - C18.1 reports the round trip
+            ck.ok(rule, construct, where_frame, f"writer reads row.{wa[0]} (fits the column name); the reader's landing in .{ra} is C18's matter")
         else:
             ck.violation(rule, construct, where_frame,
                          f"column {col} is written from row.{wa[0]} but read back into .{ra}",
